@@ -69,3 +69,20 @@ def nontrivial(sp, stream):
 
 def digest(*parts):
     return O.digest([S.jsonable(p) for p in parts])
+
+
+# ----------------------------------------------------------------------------------------------
+# states reached through the alternative constructors (Stack.build / Fraction.build)
+
+
+def built_state(sp, streams, kind):
+    """An aggregator assembled from already-filled trees of one spec, the way the library's own alternative
+    constructors do it: Stack.build(h1, h2, ...) (cumulative sums, NaN thresholds) or
+    Fraction.build(numerator, denominator).  The result is an immutable container around live children."""
+    hg = env.hg()
+    parts = [fill_all(S.build(sp), st) for st in streams]
+    if kind == "stack":
+        return hg.Stack.build(*parts)
+    if len(parts) < 2:
+        parts.append(S.build(sp))
+    return hg.Fraction.build(parts[0], parts[0] + parts[1])
